@@ -68,6 +68,24 @@ int __lsan_do_recoverable_leak_check(void);
 
 static int leaks_mode;
 
+/* -DLHASA_VERIF (linked with verif_alloc.c and the --wrap options of common.WRAP):
+   the 4th field of the case line is the index of the allocation request that
+   fails (0 = none), " lb=<live heap blocks of the library>" is printed after every
+   op and after lha_reader_free, and drv_stream_close prints the ALLOC summary.
+   The driver's own buffers are allocated with the accounting suspended. */
+#ifdef LHASA_VERIF
+void verif_alloc_suspend(void);
+void verif_alloc_resume(void);
+unsigned long verif_alloc_live(void);
+#define LB() printf(" lb=%lu", verif_alloc_live())
+#define SUSPEND() verif_alloc_suspend()
+#define RESUME() verif_alloc_resume()
+#else
+#define LB() ((void) 0)
+#define SUSPEND() ((void) 0)
+#define RESUME() ((void) 0)
+#endif
+
 static uint64_t evh; static unsigned long evn;
 static void fnv(uint64_t *h, uint64_t v) { int i; for (i = 0; i < 8; ++i) { *h ^= (v >> (8*i)) & 0xff; *h *= 1099511628211ULL; } }
 static void progress_cb(unsigned int block, unsigned int total, void *user)
@@ -93,14 +111,15 @@ static void run_ops(LHAReader *reader, char *ops)
 			ev_print(0);
 		} else if (op[0] == 'r') {
 			size_t k = strtoul(op + 1, NULL, 10), got, i;
-			uint8_t *buf = malloc(k ? k : 1);
+			uint8_t *buf;
 			uint64_t h = 14695981039346656037ULL;
+			SUSPEND(); buf = malloc(k ? k : 1); RESUME();
 			got = lha_reader_read(reader, buf, k);
 			if (got > k) { printf("OVERREAD(%zu>%zu)", got, k); got = k; }
 			for (i = 0; i < got; ++i) { h ^= buf[i]; h *= 1099511628211ULL; }
 			printf("r=%zu:%016llx:", got, (unsigned long long) h);
 			print_hex(buf, got < 16 ? got : 16);
-			free(buf);
+			SUSPEND(); free(buf); RESUME();
 			ev_print(0);
 		} else if (!strcmp(op, "c")) {
 			printf("c=%d", lha_reader_check(reader, NULL, NULL));
@@ -115,14 +134,16 @@ static void run_ops(LHAReader *reader, char *ops)
 			printf("xm=%d", lha_reader_extract(reader, NULL, progress_cb, NULL));
 			ev_print(1);
 		} else if (op[0] == 'x' && op[1] == 'f') {
-			size_t len; char *name = (char *) unhex_alloc(op + 2, &len, 1);
+			size_t len; char *name;
+			SUSPEND(); name = (char *) unhex_alloc(op + 2, &len, 1); RESUME();
 			name[len] = 0;
 			printf("xf=%d", lha_reader_extract(reader, name, NULL, NULL));
-			free(name);
+			SUSPEND(); free(name); RESUME();
 			ev_print(0);
 		} else {
 			fputs("BADOP", stdout);
 		}
+		LB();
 		fputs(" ; ", stdout);
 		fflush(stdout);     /* what was printed survives a crash in a later op */
 	}
@@ -130,10 +151,21 @@ static void run_ops(LHAReader *reader, char *ops)
 
 /* everything that uses the library, for one case; the current directory is
    the scratch directory S (still outside the jail) */
-static void library_part(const char *kind, const char *policy, const char *hx, char *ops, int jail)
+static void library_part(const char *kind, const char *policy, const char *junk, const char *hx, char *ops, int jail)
 {
 	DrvStream ds; LHAReader *reader;
+#ifdef LHASA_VERIF
+	drv_fail_at = strtoul(junk, NULL, 10);
+	if (!drv_stream_open(&ds, kind, hx)) {
+		fputs("ERR stream ", stdout);
+		if (ds.path[0]) { unlink(ds.path); ds.path[0] = 0; }
+		drv_stream_close(&ds); putchar(' ');
+		return;
+	}
+#else
+	(void) junk;
 	if (!drv_stream_open(&ds, kind, hx)) { fputs("ERR stream ", stdout); return; }
+#endif
 	/* the "file" kind reads an open FILE: its name is not needed any more
 	   (and would be out of reach inside the jail) */
 	if (ds.path[0]) { unlink(ds.path); ds.path[0] = 0; }
@@ -148,6 +180,7 @@ static void library_part(const char *kind, const char *policy, const char *hx, c
 	run_ops(reader, ops);
 	lha_reader_free(reader);
 	fputs("E", stdout);
+	LB();
 	drv_stream_close(&ds);
 	putchar(' ');
 }
@@ -168,7 +201,7 @@ static void run_case(char *line)
 		if (pid < 0) { perror("fork"); exit(3); }
 		if (pid == 0) {
 			alarm(10);      /* a case that hangs is killed: CHILD-FAILED-14 (SIGALRM) */
-			library_part(kind, policy, hx, ops, 1);
+			library_part(kind, policy, junk, hx, ops, 1);
 			fflush(stdout);
 			_exit(0);
 		}
@@ -182,7 +215,7 @@ static void run_case(char *line)
 		if (pid < 0) { perror("fork"); exit(3); }
 		if (pid == 0) {
 			alarm(10);
-			library_part(kind, policy, hx, ops, 0);
+			library_part(kind, policy, junk, hx, ops, 0);
 #ifdef HAVE_LSAN
 			printf("LEAK=%d ", __lsan_do_recoverable_leak_check() ? 1 : 0);
 #endif
@@ -193,7 +226,7 @@ static void run_case(char *line)
 		if (!WIFEXITED(status) || WEXITSTATUS(status) != 0)
 			printf(" CHILD-FAILED-%d ", status);
 	} else {
-		library_part(kind, policy, hx, ops, 0);
+		library_part(kind, policy, junk, hx, ops, 0);
 	}
 	fsu_dump_and_remove(scratch, home);
 }
